@@ -16,7 +16,7 @@ from mc.common import Violation
 
 PROP = "C17"
 LEVEL = "exploration"
-VARIANTS = ["numpy", "view", "readonly", "dask"]
+VARIANTS = ["numpy", "view", "readonly", "dask", "float32nan"]
 
 
 # ---------------------------------------------------------------------------------------------
@@ -37,6 +37,12 @@ def make_world(variant, seed=0):
     def own(name, arr):
         """return the array the caller hands over, according to the variant"""
         arr = np.ascontiguousarray(arr, dtype=float)
+        if variant == "float32nan" and name == "efth":
+            a = arr.astype(np.float32)
+            a[1, 2] = np.nan              # one all-missing spectrum (e.g. a land point at one time)
+            a[2, 0, 3, 4:6] = np.nan      # and a masked sector
+            buffers[name] = a
+            return a
         if variant == "view":
             big = np.full((2,) + arr.shape, -555.0)
             big[1] = arr
@@ -74,6 +80,22 @@ def make_world(variant, seed=0):
     w["newdir"] = own("newdir", np.array([350.0, 0.0, 10.0, 100.0, 200.0]))
     w["lons"] = [0.2, 359.8, 1.5]
     w["lats"] = [0.1, -0.5, 0.9]
+    w["lons180"] = [-0.4, 0.3, 1.8]            # the other longitude convention (forces a convention swap inside sel)
+    w["lons360_arr"] = own("lons360_arr", np.array([359.6, 0.3, 1.8]))   # query handed over as arrays, not lists
+    w["lats_arr"] = own("lats_arr", np.array([0.1, -0.5, 0.9]))
+    w["ds180"] = xr.Dataset({"efth": (("site", "freq", "dir"), own("ds180_efth", data[0]))},
+                            coords={"site": np.array([1, 2, 3]), "freq": f.copy(), "dir": d.copy()})
+    w["ds180"]["lon"] = (("site",), own("ds180_lon", np.array([-0.5, 0.5, 2.0])))
+    w["ds180"]["lat"] = (("site",), own("ds180_lat", np.array([-1.0, 0.0, 1.0])))
+    w["dset_lons"] = own("dset_lons", np.array([359.5, 0.5, 2.0]))
+    w["dset_lats"] = own("dset_lats", np.array([-1.0, 0.0, 1.0]))
+    # native-convention datasets (WW3 and SWAN netCDF layouts) owned by the caller
+    w["ww3"] = xr.Dataset({"efth": (("time", "station", "frequency", "direction"), own("ww3_efth", data[:, :, :, :] * 57.3)),
+                           "wnd": (("time", "station"), own("ww3_wnd", 5.0 + np.arange(nt * ns, dtype=float).reshape(nt, ns)))},
+                          coords={"time": times, "station": np.arange(ns), "frequency": f.copy(), "direction": (d + 180.0) % 360})
+    w["ncswan"] = xr.Dataset({"density": (("time", "points", "frequency", "direction"), own("swan_density", data * 57.3)),
+                              "depth": (("time", "points"), own("swan_depth", 20.0 + np.arange(nt * ns, dtype=float).reshape(nt, ns)))},
+                             coords={"time": times, "frequency": f.copy(), "direction": np.radians(d)})
     w["stats_list"] = ["hs", "tp", "dpm"]
     w["stats_dict"] = {"hs": {"tail": False}, "tp": {"smooth": False}}
     w["names"] = ["h", "t"]
@@ -172,7 +194,9 @@ def arg_menu():
     A["fit_gaussian"] = [lambda w: ((), {})]
     A["sel"] = [lambda w, m=m: ((w["lons"], w["lats"]), dict(method=m, tolerance=5.0)) for m in ("idw", "nearest", "bbox")] + \
                [lambda w: (([359.5, 2.0], [-1.0, 1.0]), dict(method=None))] + \
-               [lambda w: ((w["lons"], w["lats"]), dict(method="nearest", tolerance=5.0, dset_lons=w["ds"].lon.values, dset_lats=w["ds"].lat.values))]
+               [lambda w: ((w["lons"], w["lats"]), dict(method="nearest", tolerance=5.0, dset_lons=w["ds"].lon.values, dset_lats=w["ds"].lat.values))] + \
+               [lambda w, m=m: ((w["lons180"], w["lats"]), dict(method=m, tolerance=5.0)) for m in ("idw", "nearest", "bbox")] + \
+               [lambda w, m=m: ((w["lons180"], w["lats"]), dict(method=m, tolerance=5.0, dset_lons=w["dset_lons"], dset_lats=w["dset_lats"])) for m in ("idw", "nearest", "bbox")]
     A["hs"] = [lambda w: ((), {}), lambda w: ((), dict(tail=False))]
     A["tp"] = [lambda w: ((), {}), lambda w: ((), dict(smooth=False))]
     return A
@@ -301,6 +325,24 @@ def build_ops(w0):
         sel_idw(w["ds"], lo, la, tolerance=5.0).compute()
         sel_bbox(w["ds"], lo, la, tolerance=1.0).compute()
 
+    def f_native(w, tmp):
+        from wavespectra import read_dataset
+        from wavespectra.input.ww3 import from_ww3
+        from wavespectra.input.ncswan import from_ncswan
+        read_dataset(w["ww3"]).compute()
+        from_ww3(w["ww3"]).compute()
+        read_dataset(w["ncswan"]).compute()
+        from_ncswan(w["ncswan"]).compute()
+
+    ops.append(("read_dataset/from_<model>(native)", f_native))
+
+    def f_sel180(w, tmp):
+        for m in ("nearest", "idw", "bbox"):
+            w["ds180"].spec.sel(w["lons360_arr"], w["lats_arr"], method=m, tolerance=5.0).compute()
+        from wavespectra.core.select import sel_nearest
+        sel_nearest(w["ds180"], w["lons360_arr"], w["lats_arr"], tolerance=5.0).compute()
+
+    ops.append(("sel(array query, other convention)", f_sel180))
     for nm, fn in (("regrid_spec", f_regrid), ("regrid_spec(lists)", f_regrid_list), ("smooth_spec", f_smooth), ("scaled", f_scaled),
                    ("construct_partition", f_construct), ("partition_and_reconstruct", f_reconstruct), ("unique_times", f_unique),
                    ("read_dataset(wavespectra)", f_read_dataset), ("core.select.*", f_sel_funcs)):
